@@ -287,3 +287,21 @@ MUTANTS += [
     {"id": "C05-char-named-scratch-whole-buffer-written", "prop": "C05", "expect": "TEMPLATE/Char/",
      "edits": [(E, _CHAR_ARM, "Char(c) => {\n                let mut utf8 = [0u8; 4];\n                c.encode_utf8(&mut utf8);\n                out.write_all(&utf8)?;\n            }")]},
 ]
+
+MUTANTS += [
+    # separator idiom with the first iteration peeled off the loop (`if let Some(first) = it.next() { ITEM; for x in it { SEP; ITEM } }`)
+    {"id": "C05-benign-drain-peeled-first", "prop": "C05", "benign": True,
+     "edits": [(E, _DRAIN_LOOP, "        {\n            let mut chunks = self.iter();\n            if let Some(first) = chunks.next() {\n                out.write_all(first)?;\n                for chunk in chunks {\n                    out.write_all(sep)?;\n                    out.write_all(chunk)?;\n                }\n            }\n        }\n")]},
+    {"id": "C05-benign-drain-peeled-first-match", "prop": "C05", "benign": True,
+     "edits": [(E, _DRAIN_LOOP, "        {\n            let mut rest = self.iter();\n            match rest.next() {\n                None => {}\n                Some(head) => {\n                    out.write_all(head)?;\n                    for piece in rest.by_ref() {\n                        out.write_all(sep)?;\n                        out.write_all(piece)?;\n                    }\n                }\n            }\n        }\n")]},
+    {"id": "C05-drain-peeled-trailing-separator", "prop": "C05", "expect": "TEMPLATE/Face",
+     "edits": [(E, _DRAIN_LOOP, "        {\n            let mut chunks = self.iter();\n            if let Some(first) = chunks.next() {\n                out.write_all(first)?;\n                for chunk in chunks {\n                    out.write_all(chunk)?;\n                    out.write_all(sep)?;\n                }\n            }\n        }\n")]},
+    {"id": "C05-drain-peeled-first-dropped", "prop": "C05", "expect": "TEMPLATE/Face",
+     "edits": [(E, _DRAIN_LOOP, "        {\n            let mut chunks = self.iter();\n            if let Some(_first) = chunks.next() {\n                for chunk in chunks {\n                    out.write_all(sep)?;\n                    out.write_all(chunk)?;\n                }\n            }\n        }\n")]},
+    {"id": "C05-drain-peeled-first-twice", "prop": "C05", "expect": "TEMPLATE/Face",
+     "edits": [(E, _DRAIN_LOOP, "        {\n            let mut chunks = self.iter();\n            if let Some(first) = chunks.next() {\n                out.write_all(first)?;\n                for chunk in self.iter() {\n                    out.write_all(sep)?;\n                    out.write_all(chunk)?;\n                }\n            }\n        }\n")]},
+    # hoisted field read / memcpy-path push / debug_assert of an invariant
+    {"id": "C05-benign-face-depth-hoisted-extend-from-slice", "prop": "C05", "benign": True,
+     "edits": [(E, "        self.buffer.extend(chunk);\n", "        self.buffer.extend_from_slice(chunk);\n"),
+               (E, "        self.offsets.push(self.buffer.len());\n", "        let end = self.buffer.len();\n        debug_assert!(self.offsets.last().is_none_or(|last| *last <= end));\n        self.offsets.push(end);\n")]},
+]
